@@ -219,6 +219,20 @@ func validateRun(args []string) int {
 		}
 		run(b.String())
 	}
+	// strings over a small alphabet of lead bytes, continuation bytes, control characters, blanks and letters: deleting one
+	// character can let its neighbours join into a new one, again and again
+	small := []byte{0xC2, 0xC2, 0x80, 0x85, 0x9F, 0xA0, 0xE2, 0x01, 0x00, 0x7F, ' ', '\t', 'a', 'b'}
+	for i := 0; i < *nrand/2; i++ {
+		n := 2 + r.Intn(11)
+		bs := make([]byte, n)
+		for j := range bs {
+			bs[j] = small[r.Intn(len(small))]
+		}
+		run(string(bs))
+	}
+	for _, fixed := range []string{"list\xc2\xc2\x01\x80\x80files", "\xc2\xc2\xc2\x01\x80\x80\x80", "a\xc2\x01\x01\x80b", "find \x00 files", "\x01 list", "\x00 \x01", " \x7f ", "x \x01\x02 y"} {
+		run(fixed)
+	}
 	for i := 0; i < *nrand/4; i++ {
 		n := r.Intn(24)
 		bs := make([]byte, n)
